@@ -14,6 +14,7 @@ occurrences in stream order; every occurrence triggers exactly one callback
 call, with a dict holding child / event_count (0,1,2,...) / extra_args.
 """
 import os
+import re
 import time
 
 from hypothesis import strategies as st
@@ -93,7 +94,11 @@ def cases(draw):
             'default_timeout': draw(st.integers(0, 3)) == 0,
             # passed through run(**kwargs): a search window larger than any read plus any prompt changes nothing
             # about which events fire, and must change nothing about the output that is returned
-            'sws': draw(st.sampled_from([None, None, 4000]))}
+            'sws': draw(st.sampled_from([None, None, 4000])),
+            # overlapping patterns: ahead of every event a second one is listed whose pattern matches an inner part of
+            # the same prompt (it starts later, ends earlier and, through a look-ahead, becomes matchable at the same
+            # moment): the match that starts first in the stream wins, so these must never fire
+            'shadow': draw(st.booleans())}
 
 
 class Responder(object):
@@ -210,6 +215,12 @@ def check_case(case, col=None):
         return
     # ---- event table
     table = []
+    if case.get('shadow'):
+        for name in case['order']:
+            if name in ('EOF', 'TIMEOUT') or len(name) < 3:
+                continue
+            inner = re.escape(name[1:-1]) + '(?=' + re.escape(name[-1]) + ')'
+            table.append((conv(inner), (lambda nm: (lambda d: _conv_ret(respond(log, 'str:WRONG', 'shadow:' + nm, d), conv)))(name)))
     for name in case['order']:
         kind, what = case['events'][name]
         key = EOF if name == 'EOF' else TIMEOUT if name == 'TIMEOUT' else conv(name.replace('?', r'\?'))
